@@ -196,6 +196,15 @@ def coreCapabilities (isRootAcl : Bool) (rules : List Rule) (reqNs _tokenNs : Pa
 def coreCapabilitiesInTokenNs (isRootAcl : Bool) (rules : List Rule) (_reqNs tokenNs : Path) (path : Path) : List String :=
   capabilityList isRootAcl rules (tokenNs ++ path)
 
+/-- the root fast path of `ACL.AllowOperation` for the root policy of namespace `rootNs` (a path prefix, `[]` for the
+root namespace): the request is made in namespace `ctxNs` for `path`. Granted when the context's namespace lies at or
+below `rootNs`, or the namespace-qualified path does. -/
+def rootAclAllows (rootNs ctxNs path : Path) : Bool :=
+  rootNs.isPrefixOf ctxNs || rootNs.isPrefixOf (ctxNs ++ path)
+
+/-- before the repair of F101: the namespace of the context alone decided -/
+def rootAclAllowsCtxOnly (rootNs ctxNs _path : Path) : Bool := rootNs.isPrefixOf ctxNs
+
 /-! ### state -/
 
 /-- special-path table of a backend (`PathsToRadix`): key without the `*`, flag = prefix match -/
